@@ -1,6 +1,7 @@
 #!/bin/bash
 # verify_seed.sh <worktree> <check>... : confirm a seeded change (suite green, demo fails with / passes without),
 # then run the given checks against a scratch copy of /repo with the patch applied (/repo itself is not touched).
+VROOT="$(cd "$(dirname "${BASH_SOURCE[0]}")/.." && pwd)"   # the verification root this script belongs to (a snapshot runs its own copy)
 wt="$1"; shift
 export CARGO_NET_OFFLINE=true CARGO_TARGET_DIR="$wt/target"
 cd "$wt" || exit 2
@@ -13,10 +14,10 @@ git apply -R patch.diff || { echo "cannot reverse patch"; exit 2; }
 echo "== demo without the change"; (cd demo && cargo test --offline 2>&1 | grep -E "^test result|test .* FAILED|error(\[|:)" | head -8)
 git apply patch.diff
 echo "== checks against a scratch copy of /repo with the patch"
-alt="$(/verif/tools/altrepo.sh)"
+alt="$($VROOT/tools/altrepo.sh)"
 git -C "$alt" apply "$wt/patch.diff" || { echo "patch does not apply to /repo HEAD"; exit 2; }
 unset CARGO_TARGET_DIR
 for c in "$@"; do
-  (cd /verif && VERIF_REPO="$alt" ./vcheck "$c" quick 2>&1 | grep -aE "^VIOLATION|^KNOWN|class:|tier:|MACHINERY" | cut -c1-230 | head -8; echo "[$c exit=${PIPESTATUS[0]}]")
+  (cd "$VROOT" && VERIF_REPO="$alt" ./vcheck "$c" quick 2>&1 | grep -aE "^VIOLATION|^KNOWN|class:|tier:|MACHINERY" | cut -c1-230 | head -8; echo "[$c exit=${PIPESTATUS[0]}]")
 done
-/verif/tools/altrepo.sh >/dev/null
+$VROOT/tools/altrepo.sh >/dev/null
